@@ -152,14 +152,18 @@ void LogPrintfFunc(const char *module_id, const char *func_name, const char *fil
                 char buffer[buff_size];
 
                 va_start(args, fmt);
-                size_t len = 0;
-
-                len = ::vsnprintf(buffer, buff_size, fmt, args);
-
-                if (content.text_trunc)
-                    len = max_len;
-
+                int ret = ::vsnprintf(buffer, buff_size, fmt, args);
                 va_end(args);
+
+                //! vsnprintf() failed (encoding error, or the result is longer than INT_MAX): there is
+                //! no formatted text, print the format string itself
+                if (ret < 0) {
+                    with_args = 0;
+                    content.text_trunc = false;
+                    break;
+                }
+
+                size_t len = content.text_trunc ? max_len : static_cast<size_t>(ret);
 
                 //! 如果buffer的空间够用，则正常派发日志
                 //! 否则要对buffer空间进行扩张，或是对内容进行截断
@@ -179,8 +183,9 @@ void LogPrintfFunc(const char *module_id, const char *func_name, const char *fil
                     content.text_trunc = true;
                 }
             }
+        }
 
-        } else {
+        if (!with_args) {
             content.text_len = ::strlen(fmt);
 
             //! 如果超出最大长度，要限制
